@@ -37,7 +37,9 @@ def cts_case(ctx, t):
             continue
         for enc in encodings(c):
             for thr in THRS:
-                for dn in range(-2, 3):
+                for dn in list(range(-2, 3)) + [-(2 * thr + 1), -(2 * thr + 100), -(thr + 100000)]:
+                    # the last three put the verifier clock AHEAD of the timestamp (t - now = -thr-1, ...): only a timestamp
+                    # in the future is limited by the slack, one in the past is not
                     now = t - (thr + dn)
                     want = t >= c and (thr <= 0 or t - now < thr)
                     # a real clock reads fractions of a second: the whole second counts (int(time())), so now + 0.5 and
